@@ -19,7 +19,7 @@ R = [(r'attribute_handles_t::(declaration|value|cccd)_handle', r'G_\1_handle', '
      (r'service_index_mapping< G_start_handle, G_start_index, Options\.\.\. >::characteristic_(handle_by_index|first_index_by_handle)\(', r'service_characteristic_\1(', '*'),
      (r'next_service_mapping< G_start_handle, G_start_index, std::tuple< Services\.\.\. >, Options\.\.\. >::service_(handle_by_index|first_index_by_handle)\(', r'tail_service_\1(', '*'),
      (r'iterator::service_(handle_by_index|first_index_by_handle)\(', r'services_\1(', '*'),
-     (r'\bservice_handle\b', 'G_service_handle', '*'),
+     (r'\bservice_handle\b', 'G_service_handle', '*'), (r'(?<![\w:])number_of_service_attributes\b', 'G_nsa', '*'),
      (r'(?<![\w:])(declaration|value|cccd)_position\b', r'\1_position', '*')]
 def F(scope, sig, **kw):
     d = dict(file=AH, scope=scope, locate=sig, rules=R); d.update(kw); return d
@@ -42,6 +42,31 @@ EX = dict(
     top_h=F(HIM, r'static std::uint16_t handle_by_index\( std::size_t index \)'), top_f=F(HIM, r'static std::size_t first_index_by_handle\( std::uint16_t handle \)'),
     top_i=F(HIM, r'static std::size_t index_by_handle\( std::uint16_t handle \)'),
 )
+
+# the alias templates that thread ( start handle, start index ) through the lists: their two leading arguments as expressions
+def _alias_args(text, anchor='='):
+    i = text.index('<', text.index(anchor)); depth = 0; args = []; cur = ''
+    for ch in text[i + 1:]:
+        if ch == '<': depth += 1
+        if ch == '>':
+            if depth == 0: break
+            depth -= 1
+        if ch == ',' and depth == 0: args.append(cur.strip()); cur = ''
+        else: cur += ch
+    args.append(cur.strip())
+    return args
+def ARG(loc, which, rules):
+    # keep only argument number `which` (0 or 1) of the alias' template argument list (split at top level commas)
+    pick = (r'(?s)^using .*$', lambda m: _alias_args(m.group(0))[which], 1)
+    return dict(kind='text', body='text', file=AH, locate=loc, no_members=True, pre=[pick], rules=rules)
+ALIAS_R = [(r'service_start_handle< StartHandle, StartIndex, Options\.\.\. >::value', 'G_service_handle', '*'), (r'::bluetoe::service< Options\.\.\. >::number_of_service_attributes', 'G_nsa', '*'),
+           (r'characteristic_index_mapping< StartHandle, StartIndex, Options\.\.\. >::end_handle', 'CHAR_END_HANDLE', '*'), (r'characteristic_index_mapping< StartHandle, StartIndex, Options\.\.\. >::end_index', 'CHAR_END_INDEX', '*'),
+           (r'service_index_mapping< StartHandle, StartIndex, Options\.\.\. >::end_handle', 'G_service_end_handle', '*'), (r'service_index_mapping< StartHandle, StartIndex, Options\.\.\. >::end_index', 'SERVICE_END_INDEX', '*'),
+           (r'\bStartIndex\b', 'G_start_index', '*'), (r'\bStartHandle\b', 'G_start_handle', '*')]
+NCM = r'using next_char_mapping = interate_characteristic_index_mappings<[^;]*;'
+NXC = r'using next_characteristic_mapping = interate_characteristic_index_mappings<[^;]*;'
+NXS = r'using next_service_mapping = interate_service_index_mappings<[^;]*;'
+EX.update(ncm_handle=ARG(NCM, 0, ALIAS_R), ncm_index=ARG(NCM, 1, ALIAS_R), nxc_handle=ARG(NXC, 0, ALIAS_R), nxc_index=ARG(NXC, 1, ALIAS_R), nxs_handle=ARG(NXS, 0, ALIAS_R), nxs_index=ARG(NXS, 1, ALIAS_R))
 COMMON = r'''
 #define invalid_attribute_handle ((uint16_t)({{inv_handle}}))
 #define invalid_attribute_index ((size_t)({{inv_index}}))
@@ -120,6 +145,13 @@ size_t chars0_attribute_index_by_handle(uint16_t handle) __CPROVER_requires(SHAP
 {{chars0_i}}
 #define SETUP G_N = nondet_size(); G_end = nondet_size(); G_i = nondet_size(); G_start_handle = nondet_u16(); G_start_index = nondet_u16(); G_declaration_handle = nondet_u16(); G_value_handle = nondet_u16(); G_cccd_handle = nondet_u16(); G_n = nondet_size(); \
   __CPROVER_assume(G_N >= 1 && G_N <= N_MAX && G_start_index < N_MAX); BT_KNOWN_EXCLUDE()
+/* next_characteristic_mapping<>: the rest of the list is instantiated with this characteristic's end handle / end index as its start (alias template arguments, compared as expressions) */
+void next_characteristic_mapping_args(void) __CPROVER_requires(CHAR_CONSTS_OK) __CPROVER_ensures((uint16_t)(
+{{nxc_handle}}
+) == CHAR_END_HANDLE && (uint16_t)(
+{{nxc_index}}
+) == CHAR_END_INDEX) __CPROVER_assigns() { }
+void h_next_characteristic_mapping_args(void) { SETUP; next_characteristic_mapping_args(); BT_CANARY(); }
 void h_characteristic_attribute_handle_by_index(void) { SETUP; characteristic_attribute_handle_by_index(nondet_size()); BT_CANARY(); }
 void h_characteristic_attribute_index_by_handle(void) { SETUP; characteristic_attribute_index_by_handle(nondet_u16()); BT_CANARY(); }
 void h_chars_attribute_handle_by_index(void) { SETUP; chars_attribute_handle_by_index(nondet_size()); BT_CANARY(); }
@@ -127,10 +159,10 @@ void h_chars_attribute_index_by_handle(void) { SETUP; chars_attribute_index_by_h
 void h_chars0_attribute_handle_by_index(void) { SETUP; chars0_attribute_handle_by_index(nondet_size()); BT_CANARY(); }
 void h_chars0_attribute_index_by_handle(void) { SETUP; chars0_attribute_index_by_handle(nondet_u16()); BT_CANARY(); }
 '''
-CH_KEYS = ('inv_handle', 'inv_index', 'char_end_handle', 'char_end_index', 'pos_decl', 'pos_value', 'pos_cccd', 'char_h', 'char_i', 'chars0_h', 'chars0_i', 'chars_h', 'chars_i')
+CH_KEYS = ('inv_handle', 'inv_index', 'char_end_handle', 'char_end_index', 'pos_decl', 'pos_value', 'pos_cccd', 'char_h', 'char_i', 'chars0_h', 'chars0_i', 'chars_h', 'chars_i', 'nxc_handle', 'nxc_index')
 UNITS = [
     dict(name='characteristics', extracts={k: EX[k] for k in CH_KEYS}, code=CHARS,
-         enforce=['characteristic_attribute_handle_by_index', 'characteristic_attribute_index_by_handle', 'chars_attribute_handle_by_index', 'chars_attribute_index_by_handle', 'chars0_attribute_handle_by_index', 'chars0_attribute_index_by_handle'],
+         enforce=['next_characteristic_mapping_args', 'characteristic_attribute_handle_by_index', 'characteristic_attribute_index_by_handle', 'chars_attribute_handle_by_index', 'chars_attribute_index_by_handle', 'chars0_attribute_handle_by_index', 'chars0_attribute_index_by_handle'],
          replace=['tail_attribute_handle_by_index', 'tail_attribute_index_by_handle', 'characteristic_attribute_handle_by_index', 'characteristic_attribute_index_by_handle'],
          replay=dict(src='replay/c04_replay.cpp', cxxflags=['-DNDEBUG'])),
 ]
@@ -139,23 +171,26 @@ SERVICES = COMMON + r'''
 /* ---- one service: template constants StartHandle, StartIndex, number_of_attributes, the service's start handle (service_start_handle<>: an attribute_handle<> option or StartHandle; static_assert:
         >= StartHandle) and its end handle (last_characteristic_end_handle of its characteristic list) */
 uint16_t G_start_handle, G_start_index, G_service_handle, G_service_end_handle; size_t G_n;
+size_t G_nsa;   /* service< Options... >::number_of_service_attributes: the service declaration and one include declaration per include_service<> */
 static inline uint16_t service_end_index(void) { return (uint16_t)(
 {{svc_end_index}}
 ); }
 #define SERVICE_END_INDEX service_end_index()
-#define SVC_CONSTS_OK (G_n >= 1 && G_n <= N_MAX && G_start_handle >= 1 && G_service_handle >= G_start_handle && G_service_handle < G_service_end_handle && (size_t)G_start_index + G_n <= G_end)
-/* the service declaration IS attribute StartIndex with the service's start handle; the following n - 1 attributes are defined by its characteristic list (next_char_mapping<>: starts at handle + 1, index + 1) */
-#define UH(i) ((i) == G_start_index ? G_service_handle : G_H[i])
+#define SVC_CONSTS_OK (G_n >= 1 && G_n <= N_MAX && G_nsa >= 1 && G_nsa <= G_n && G_start_handle >= 1 && G_service_handle >= G_start_handle && G_service_handle <= 0xff00 && G_service_handle + G_nsa <= G_service_end_handle && (size_t)G_start_index + G_n <= G_end)
+/* the service declaration IS attribute StartIndex with the service's start handle, the include declarations follow with the next handles; the remaining attributes are defined by its characteristic list
+   (next_char_mapping<>: starts at handle + number_of_service_attributes, index + number_of_service_attributes) */
+#define UH(i) (((i) >= G_start_index && (i) < (size_t)G_start_index + G_nsa) ? (uint16_t)(G_service_handle + ((i) - G_start_index)) : G_H[i])
 /* hypotheses about the characteristic list (proved for it in unit characteristics, with the list ending where the service ends): it meets the list contract; all its handles lie between the
    service handle and the service's end handle */
-#define CHARS_IN (((G_i > G_start_index) && G_i < (size_t)G_start_index + G_n) ==> (G_H[G_i] > G_service_handle && G_H[G_i] < G_service_end_handle))
+#define CHARS_IN (((G_i >= (size_t)G_start_index + G_nsa) && G_i < (size_t)G_start_index + G_n) ==> (G_H[G_i] >= G_service_handle + G_nsa && G_H[G_i] < G_service_end_handle))
 #define IN_SERVICE(x) ((x) >= G_start_index && (x) < (size_t)G_start_index + G_n)
-uint16_t chars_attribute_handle_by_index(size_t index) __CPROVER_requires(index > G_start_index)
-__CPROVER_ensures(__CPROVER_return_value == (index < (size_t)G_start_index + G_n ? UH(index) : invalid_attribute_handle) && (index < (size_t)G_start_index + G_n ==> (__CPROVER_return_value > G_service_handle && __CPROVER_return_value < G_service_end_handle))) __CPROVER_assigns();
-size_t chars_attribute_index_by_handle(uint16_t handle) __CPROVER_requires(handle > G_service_handle)
-__CPROVER_ensures(__CPROVER_return_value == invalid_attribute_index ? ((G_i > G_start_index && G_i < (size_t)G_start_index + G_n) ==> UH(G_i) < handle)
-    : (__CPROVER_return_value > G_start_index && __CPROVER_return_value < (size_t)G_start_index + G_n && UH(__CPROVER_return_value) >= handle && UH(__CPROVER_return_value) < G_service_end_handle
-       && ((G_i > G_start_index && G_i < __CPROVER_return_value) ==> UH(G_i) < handle) && ((G_i >= __CPROVER_return_value && G_i < (size_t)G_start_index + G_n) ==> UH(G_i) >= handle)
+uint16_t chars_attribute_handle_by_index(size_t index) __CPROVER_requires(index >= (size_t)G_start_index + G_nsa)
+__CPROVER_ensures(__CPROVER_return_value == (index < (size_t)G_start_index + G_n ? UH(index) : invalid_attribute_handle) && (index < (size_t)G_start_index + G_n ==> (__CPROVER_return_value >= G_service_handle + G_nsa && __CPROVER_return_value < G_service_end_handle))) __CPROVER_assigns();
+#define FIRST_CHAR ((size_t)G_start_index + G_nsa)
+size_t chars_attribute_index_by_handle(uint16_t handle) __CPROVER_requires(handle >= G_service_handle + G_nsa)
+__CPROVER_ensures(__CPROVER_return_value == invalid_attribute_index ? ((G_i >= FIRST_CHAR && G_i < (size_t)G_start_index + G_n) ==> UH(G_i) < handle)
+    : (__CPROVER_return_value >= FIRST_CHAR && __CPROVER_return_value < (size_t)G_start_index + G_n && UH(__CPROVER_return_value) >= handle && UH(__CPROVER_return_value) < G_service_end_handle
+       && ((G_i >= FIRST_CHAR && G_i < __CPROVER_return_value) ==> UH(G_i) < handle) && ((G_i >= __CPROVER_return_value && G_i < (size_t)G_start_index + G_n) ==> UH(G_i) >= handle)
        && ((G_i > __CPROVER_return_value && G_i < (size_t)G_start_index + G_n) ==> UH(G_i) > UH(__CPROVER_return_value))))
 __CPROVER_ensures(handle < G_service_end_handle ==> __CPROVER_return_value != invalid_attribute_index) __CPROVER_assigns();
 uint16_t service_characteristic_handle_by_index(size_t index)
@@ -188,8 +223,21 @@ uint16_t services0_handle_by_index(size_t index) __CPROVER_requires(SHAPE && G_e
 {{svcs0_h}}
 size_t services0_first_index_by_handle(uint16_t handle) __CPROVER_requires(SHAPE && G_end == G_start_index && FRONT(G_start_index, G_start_handle) && handle >= G_start_handle) __CPROVER_ensures(LIST_FIBH(__CPROVER_return_value, handle, G_start_index)) __CPROVER_assigns()
 {{svcs0_i}}
-#define SETUP G_N = nondet_size(); G_end = nondet_size(); G_i = nondet_size(); G_start_handle = nondet_u16(); G_start_index = nondet_u16(); G_service_handle = nondet_u16(); G_service_end_handle = nondet_u16(); G_n = nondet_size(); \
+#define SETUP G_N = nondet_size(); G_end = nondet_size(); G_i = nondet_size(); G_start_handle = nondet_u16(); G_start_index = nondet_u16(); G_service_handle = nondet_u16(); G_service_end_handle = nondet_u16(); G_n = nondet_size(); G_nsa = nondet_size(); \
   __CPROVER_assume(G_N >= 1 && G_N <= N_MAX && G_start_index < N_MAX); BT_KNOWN_EXCLUDE()
+/* next_char_mapping<>: a service's characteristics start behind its service and include declarations; next_service_mapping<>: the rest of the services starts at this service's end handle / end index */
+void next_char_mapping_args(void) __CPROVER_requires(SVC_CONSTS_OK) __CPROVER_ensures((uint16_t)(
+{{ncm_handle}}
+) == (uint16_t)(G_service_handle + G_nsa) && (size_t)(
+{{ncm_index}}
+) == FIRST_CHAR) __CPROVER_assigns() { }
+void h_next_char_mapping_args(void) { SETUP; next_char_mapping_args(); BT_CANARY(); }
+void next_service_mapping_args(void) __CPROVER_requires(SVC_CONSTS_OK) __CPROVER_ensures((uint16_t)(
+{{nxs_handle}}
+) == G_service_end_handle && (uint16_t)(
+{{nxs_index}}
+) == SERVICE_END_INDEX) __CPROVER_assigns() { }
+void h_next_service_mapping_args(void) { SETUP; next_service_mapping_args(); BT_CANARY(); }
 void h_service_characteristic_handle_by_index(void) { SETUP; service_characteristic_handle_by_index(nondet_size()); BT_CANARY(); }
 void h_service_characteristic_first_index_by_handle(void) { SETUP; service_characteristic_first_index_by_handle(nondet_u16()); BT_CANARY(); }
 void h_services_handle_by_index(void) { SETUP; services_handle_by_index(nondet_size()); BT_CANARY(); }
@@ -219,12 +267,90 @@ void h_first_index_by_handle(void) { SETUP; first_index_by_handle(nondet_u16());
 void h_index_by_handle(void) { SETUP; index_by_handle(nondet_u16()); BT_CANARY(); }
 '''
 UNITS += [
-    dict(name='services', extracts={k: EX[k] for k in ('inv_handle', 'inv_index', 'svc_end_index', 'svc_h', 'svc_i', 'svcs0_h', 'svcs0_i', 'svcs_h', 'svcs_i')}, code=SERVICES,
-         enforce=['service_characteristic_handle_by_index', 'service_characteristic_first_index_by_handle', 'services_handle_by_index', 'services_first_index_by_handle', 'services0_handle_by_index', 'services0_first_index_by_handle'],
+    dict(name='services', extracts={k: EX[k] for k in ('inv_handle', 'inv_index', 'svc_end_index', 'svc_h', 'svc_i', 'svcs0_h', 'svcs0_i', 'svcs_h', 'svcs_i', 'ncm_handle', 'ncm_index', 'nxs_handle', 'nxs_index')}, code=SERVICES,
+         enforce=['next_char_mapping_args', 'next_service_mapping_args', 'service_characteristic_handle_by_index', 'service_characteristic_first_index_by_handle', 'services_handle_by_index', 'services_first_index_by_handle', 'services0_handle_by_index', 'services0_first_index_by_handle'],
          replace=['chars_attribute_handle_by_index', 'chars_attribute_index_by_handle', 'tail_service_handle_by_index', 'tail_service_first_index_by_handle', 'service_characteristic_handle_by_index', 'service_characteristic_first_index_by_handle'],
          replay=dict(src='replay/c04_replay.cpp', cxxflags=['-DNDEBUG'])),
     dict(name='mapping', extracts={k: EX[k] for k in ('inv_handle', 'inv_index', 'top_h', 'top_f', 'top_i')}, code=TOP,
          enforce=['handle_by_index', 'first_index_by_handle', 'index_by_handle'], replace=['services_handle_by_index', 'services_first_index_by_handle', 'handle_by_index', 'first_index_by_handle'],
+         replay=dict(src='replay/c04_replay.cpp', cxxflags=['-DNDEBUG'])),
+]
+
+# ---- include declarations (service.hpp): service_handles<> (type level, its expressions as lemmas) and the two access functions of the include attribute
+SV = 'bluetoe/service.hpp'
+SHM = r'struct service_handles< std::tuple< Service, Ss\.\.\. >, Service, Handle >'
+SHS = r'struct service_handles< std::tuple< S, Ss\.\.\. >, Service, Handle >'
+INC16 = r'struct generate_attribute< include_service< service_uuid16< UUID > >, CCCDIndices, ClientCharacteristicIndex, ServiceUUID, Server, Options\.\.\. >\s*(?=\{)'
+INC128 = r'struct generate_attribute< include_service< service_uuid< A, B, C, D, E > >, CCCDIndices, ClientCharacteristicIndex, ServiceUUID, Server, Options\.\.\. >\s*(?=\{)'
+SH_R = [(r'\bHandle\b', 'G_handle', '*'), (r'\bService::number_of_attributes\b', 'G_inc_n', '*'), (r'\bS::number_of_attributes\b', 'G_n', '*'), (r'\bnext::service_attribute_handle\b', 'G_next_first', '*'),
+        (r'\bnext::end_service_handle\b', 'G_next_end', '*')]
+ACC_R = [(r'typedef interate_service_index_mappings< 1u, 0u, service_list > mapping;', '', '*'), (r'\bmapping::service_handle_by_index\(', 'services_handle_by_index(', '*'),
+         (r'\bhandles::service_attribute_handle\b', 'SH_FIRST', '+'), (r'\bhandles::end_service_handle\b', 'SH_END', '+'), (r'\bUUID\b', 'G_uuid', '*'), (r'\bargs\b', 'access_args', '*')]
+def SHX(scope, name): return dict(kind='expr', file=SV, scope=scope, locate=r'static constexpr std::uint16_t %s\s*=' % name, rules=SH_R, no_members=True)
+ACC = r'static details::attribute_access_result access\( attribute_access_arguments& args, std::size_t \)'
+EX.update(sh_first=SHX(SHM, 'service_attribute_handle'), sh_end=SHX(SHM, 'end_service_handle'), sh_step_first=SHX(SHS, 'service_attribute_handle'), sh_step_end=SHX(SHS, 'end_service_handle'),
+          sh_default=dict(kind='text', body='text', file=SV, locate=r'(?<=typename Service, std::uint16_t Handle = )\w+(?= >\s*struct service_handles;)', no_members=True),
+          sh_next=dict(kind='text', body='text', file=SV, scope=SHS, locate=r'typedef service_handles<[^;]*> next;', no_members=True,
+                       pre=[(r'(?s)^typedef .*$', lambda m: _alias_args(m.group(0), 'typedef')[2], 1)], rules=SH_R),
+          inc16=dict(file=SV, scope=INC16, locate=ACC, rules=ACC_R, no_members=True), inc128=dict(file=SV, scope=INC128, locate=ACC, rules=ACC_R[:-2] + ACC_R[-1:], no_members=True))
+INCLUDE = COMMON + r"""
+/* ---- include declarations: the included service's attributes are the attributes G_inc_first .. G_inc_first + G_inc_n - 1 of the data base */
+#define UH(i) G_H[i]
+size_t G_inc_first, G_inc_n, G_n, G_start_index; uint16_t G_handle, G_next_first, G_next_end, G_uuid;
+#define INC_OK (SHAPE && G_end == G_N && G_inc_n >= 1 && G_inc_n <= N_MAX && G_inc_first < N_MAX && G_inc_first + G_inc_n <= G_N)
+/* service_handles< list, Service, Handle >: the invariant of the recursion is Handle == ( index of the first attribute of the list ) + 1. The list that starts with the wanted service: */
+static inline uint16_t sh_first(void) { return (uint16_t)(
+{{sh_first}}
+); }
+static inline uint16_t sh_end(void) { return (uint16_t)(
+{{sh_end}}
+); }
+#define SH_FIRST sh_first()
+#define SH_END sh_end()
+void service_handles_found(void) __CPROVER_requires(INC_OK && G_handle == G_inc_first + 1)
+__CPROVER_ensures((size_t)SH_FIRST - 1 == G_inc_first && (size_t)SH_END - 1 == G_inc_first + G_inc_n - 1) __CPROVER_assigns() { }
+/* a list that starts with another service S (G_n attributes from index G_start_index on): the rest is searched with Handle + S::number_of_attributes, its results are handed through */
+void service_handles_step(void) __CPROVER_requires(SHAPE && G_n >= 1 && G_n <= N_MAX && G_start_index < N_MAX && G_start_index + G_n <= G_N && G_handle == G_start_index + 1)
+__CPROVER_ensures((uint16_t)(
+{{sh_next}}
+) == G_start_index + G_n + 1 && (uint16_t)(
+{{sh_step_first}}
+) == G_next_first && (uint16_t)(
+{{sh_step_end}}
+) == G_next_end) __CPROVER_assigns() { }
+/* the recursion starts with the whole list: index 0 */
+void service_handles_start(void) __CPROVER_ensures((uint16_t)(
+{{sh_default}}
+) == 0 + 1) __CPROVER_assigns() { }
+/* the access functions of the include attribute: the value handed to attribute_value_read_only_access() */
+struct { size_t calls, size; uint8_t b[6]; } G_v;
+int attribute_value_read_only_access(void *a, const uint8_t *p, size_t n)
+{ G_v.calls++; G_v.size = n; if (n > 0) G_v.b[0] = p[0]; if (n > 1) G_v.b[1] = p[1]; if (n > 2) G_v.b[2] = p[2]; if (n > 3) G_v.b[3] = p[3]; if (n > 4) G_v.b[4] = p[4]; if (n > 5) G_v.b[5] = p[5]; return nondet_int(); }
+/* handle by index of the list of all services (proved in units services / mapping) */
+uint16_t services_handle_by_index(size_t index) __CPROVER_requires(SHAPE) __CPROVER_ensures(LIST_HBI(__CPROVER_return_value, index, 1)) __CPROVER_assigns();
+#define LE16(k, x) (G_v.b[k] == ((x) & 0xff) && G_v.b[(k) + 1] == ((x) >> 8))
+#define NAMES_RANGE (G_v.calls == 1 && LE16(0, UH(G_inc_first)) && LE16(2, UH(G_inc_first + G_inc_n - 1)))
+void *access_args;
+int include16_access(void) __CPROVER_requires(INC_OK && G_handle == G_inc_first + 1 && G_v.calls == 0)
+/* the include declaration names the real first and last handle of the included service, and the 16 bit UUID */
+__CPROVER_ensures(NAMES_RANGE && G_v.size == 6 && LE16(4, G_uuid))
+__CPROVER_assigns(G_v)
+{{inc16}}
+int include128_access(void) __CPROVER_requires(INC_OK && G_handle == G_inc_first + 1 && G_v.calls == 0)
+__CPROVER_ensures(NAMES_RANGE && G_v.size == 4)
+__CPROVER_assigns(G_v)
+{{inc128}}
+#define SETUP G_N = nondet_size(); G_end = nondet_size(); G_i = nondet_size(); G_inc_first = nondet_size(); G_inc_n = nondet_size(); G_n = nondet_size(); G_start_index = nondet_size(); G_handle = nondet_u16(); \
+  G_next_first = nondet_u16(); G_next_end = nondet_u16(); G_uuid = nondet_u16(); G_v.calls = 0; __CPROVER_assume(G_N >= 1 && G_N <= N_MAX); BT_KNOWN_EXCLUDE()
+void h_service_handles_found(void) { SETUP; service_handles_found(); BT_CANARY(); }
+void h_service_handles_step(void) { SETUP; service_handles_step(); BT_CANARY(); }
+void h_service_handles_start(void) { SETUP; service_handles_start(); BT_CANARY(); }
+void h_include16_access(void) { SETUP; include16_access(); BT_CANARY(); }
+void h_include128_access(void) { SETUP; include128_access(); BT_CANARY(); }
+"""
+UNITS += [
+    dict(name='include', extracts={k: EX[k] for k in ('inv_handle', 'inv_index', 'sh_first', 'sh_end', 'sh_step_first', 'sh_step_end', 'sh_default', 'sh_next', 'inc16', 'inc128')}, code=INCLUDE,
+         enforce=['service_handles_found', 'service_handles_step', 'service_handles_start', 'include16_access', 'include128_access'], replace=['services_handle_by_index'],
          replay=dict(src='replay/c04_replay.cpp', cxxflags=['-DNDEBUG'])),
 ]
 META = dict(
@@ -240,13 +366,19 @@ META = dict(
                 "smaller. handle_index_mapping< server > (handle_by_index, first_index_by_handle, index_by_handle): the list of all services from handle 1 / index 0; "
                 "index_by_handle returns the attribute with exactly that handle and invalid iff no attribute has it - the contract the ATT handlers (C01, C02, C07, C08) assume. "
                 "Fixed handles: the handle of an element's first attribute IS the requested one (service_start_handle<> / select_attribute_handles<> constant), >= the running "
-                "start handle by the library's static_assert.",
-    assumptions=["NOT decided (evaluated by the C++ compiler, no function body): that next_characteristic_mapping<> / next_char_mapping<> / next_service_mapping<> hand each element's "
-                 "end_handle / end_index on as the next StartHandle / StartIndex, that last_characteristic_end_handle is the end handle of the last characteristic, that "
-                 "select_attribute_handles<> / service_start_handle<> pick the requested fixed handles, and the static_asserts 'declaration < value < CCCD', 'handle >= StartHandle' "
-                 "(taken as preconditions: a declaration violating them does not compile); the native replay compares the three functions on real servers for all 65536 handles",
+                "start handle by the library's static_assert. A service's own attributes are its declaration and one include declaration per include_service<> "
+                "(number_of_service_attributes), its characteristics start behind them. Include declarations (service.hpp, both access functions): the value handed out is the "
+                "handle of the included service's first and of its last attribute (taken from the list contract of 'handle by index'), little endian, followed by the 16 bit "
+                "UUID; service_handles<> yields ( index of the first / last attribute ) + 1 (recursion invariant Handle == start index + 1, start 1).",
+    assumptions=["the alias templates that thread ( start handle, start index ) through the lists (next_characteristic_mapping<>, next_char_mapping<>, next_service_mapping<>) and the "
+                 "recursion of service_handles<> are evaluated by the C++ compiler; their argument expressions are extracted as text and compared with the induction hypotheses in the "
+                 "lemma functions *_args / service_handles_*; NOT decided: that last_characteristic_end_handle is the end handle of the last characteristic, that "
+                 "select_attribute_handles<> / service_start_handle<> pick the requested fixed handles, that find_service_by_uuid<> picks the service with the included UUID, and the "
+                 "static_asserts 'declaration < value < CCCD', 'handle >= StartHandle' (taken as preconditions: a declaration violating them does not compile); the native replay "
+                 "compares the three functions on real servers for all 65536 handles and reads the include declarations",
                  "NOT decided here: that a characteristic declaration names its own value handle (the declaration access function is under contract in C06, where the value "
-                 "handle is handle_by_index( index + 1 )) and that include declarations name the included service's real range and UUID (service_handles<>: type level)",
+                 "handle is handle_by_index( index + 1 ))",
+                 "attribute_value_read_only_access() is replaced by a stand-in that records the value it is handed (its real body is under contract in C06)",
                  "the induction itself (base + step => every finite list) is the usual argument; each step is machine checked for every position, size and handle value (N_MAX 64 "
                  "bounds the ghost table only)"],
     trusted_base=[],
